@@ -244,9 +244,25 @@ def tensor_case_input(rng):
                 bubble = inside.bubble(func=func)
                 features.append("bubble:" + name)
             d = d >> Id(cod[:i]) @ bubble @ Id(cod[j:])
+            if not boolean and rng.random() < .45:
+                # a second bubble around the SAME inside with another function:
+                # the two differ in nothing but `func`
+                name2, func2 = POLY[rng.randrange(len(POLY))]
+                d = d @ inside.bubble(func=func2)
+                features.append("twin-bubble:" + name2)
             if rng.random() < .6:
                 d = d >> kit.rand_diagram(rng, rng.randint(1, 2),
                                           dom=as_dim(d.cod), width=2)
+        if rng.random() < .2:
+            # two boxes with one name and type whose (long) arrays differ only in
+            # the middle, where numpy's summarised repr prints "..."
+            big = [rng.randint(-3, 3) for _ in range(24)]
+            other = list(big)
+            other[11], other[12] = other[11] + 1, other[12] - 2
+            twin_a = tensor.Box("big", tensor.Dim(2, 3), tensor.Dim(4), big)
+            twin_b = tensor.Box("big", tensor.Dim(2, 3), tensor.Dim(4), other)
+            d = d @ twin_a @ twin_b if rng.random() < .5 else twin_b @ d @ twin_a
+            features.append("same-name-long-arrays")
         if rng.random() < .35:
             d = sum_of(rng, kit, d)
             features.append("sum:{}".format(len(d.terms)))
